@@ -114,6 +114,7 @@ type CmaEsChol struct {
 	operation   chan<- Task
 	updateErr   error
 	announced   bool // A MajorIteration has been sent.
+	finishing   bool // MethodDone follows the MajorIteration in flight.
 }
 
 var (
@@ -241,6 +242,7 @@ func (cma *CmaEsChol) Init(dim, tasks int) int {
 	cma.operation = nil
 	cma.updateErr = nil
 	cma.announced = false
+	cma.finishing = false
 	t := min(tasks, cma.pop)
 	return t
 }
@@ -324,6 +326,13 @@ Loop:
 		case PostIteration:
 			break Loop
 		case MajorIteration:
+			if cma.finishing {
+				// The best location of the last generation has been
+				// announced, now declare convergence.
+				result.Op = MethodDone
+				operations <- result
+				continue Loop
+			}
 			// The last thing we did was update all of the tasks and send the
 			// major iteration. Now we can send a group of tasks again.
 			cma.sendInitTasks(tasks)
@@ -360,7 +369,10 @@ Loop:
 					cma.updateErr = err
 					task.Op = MethodDone
 				case cma.methodConverged() != NotTerminated:
-					task.Op = MethodDone
+					// Announce the best location of this generation first;
+					// the Location of a MethodDone task is not looked at.
+					cma.finishing = true
+					fallthrough
 				default:
 					task.Op = MajorIteration
 					task.ID = -1
